@@ -133,6 +133,28 @@ CLAIMED["C14"]["text"] += " Options without a dataclass field are reported in wr
 CLAIMED["C16"]["text"] += " The silent setting passed through parse_from_file's settings dict reaches every call and the dict is not modified; ALTER keywords in any case style are typed as keywords (supported statements stay supported)."
 CLAIMED["C19"]["text"] += " cli.main walks a directory and parses each DDL-extension entry exactly once under its own path; dump_data_to_file writes exactly the JSON of what it is given (list, grouped dict or table dict)."
 
+# ---- round 4 additions
+NATIVE = "; file-system effects decided by running the real entry points natively on a fresh temporary tree for every case the solver enumerates (names, modes, flags, invocation count as symbolic choices)"
+CLAIMED["C19"]["technique"] = CLAIMED["C19"]["technique"].replace("recording fakes for open / DDLParser / dump_data_to_file / parse_from_file", "recording fakes for open / DDLParser / dump_data_to_file / parse_from_file in the plumbing lemmas") + NATIVE
+CLAIMED["C14"]["technique"] += NATIVE
+CLAIMED["C02"]["technique"] += LRBMC
+CLAIMED["C09"]["technique"] += LRBMC
+CLAIMED["C19"]["text"] += " The real sdp command (cli.main, argparse, parse_from_file, the dump code) on a fresh temporary tree: input name (lower / mixed case), -o mode, an optional second invocation on the same target with another mode, -t given or defaulted, file / directory mode, --no-dump: exactly <target>/<base name>_schema.json per DDL file with the JSON of the API result for the last mode, and nothing at all with --no-dump; dump_data_to_file on a real directory (present or not) for four kinds of data."
+CLAIMED["C19"]["note"] = "Outside (not encodable): codecs, the console-script shim of the sdp process. File-system lemmas execute natively (CrossHair tracing suspended, side-effect wall opened for the temporary tree); the solver's role there is the enumeration of the case space - stated in the evidence."
+CLAIMED["C14"]["text"] += " The second parse_data() call starts from whatever the first left in Parser.data (no re-initialisation) and statements are compared as the lexer sees them, also on a script whose literals contain text the spacing rules touch; run() / parse_from_file() without dump and sdp --no-dump create nothing in the working directory, next to the input or in the dump directory (15 modes x group_by_type x json_dump x entry point; real temporary tree)."
+CLAIMED["C14"]["note"] = "Trusted: identity stub for yacc.parse in the re-run lemmas. Outside: rewriting of parsetab.py inside the package (C20), other processes beyond table generation under other hash seeds."
+CLAIMED["C02"]["text"] += " LR step lemmas: key / unique / foreign-key / referenced column lists of any length; the foreign-key item as a chain (head, REFERENCES [schema.]table (, close, ON DELETE / UPDATE in any order) back to [0, expr] with exactly one fold. Schema-qualified tables: referenced schema exactly as written. Seven catalogued CHECK expressions x five declaration forms (inline, table-level named / unnamed, ALTER ADD [CONSTRAINT] CHECK) through the whole pipeline: reported exactly once, in the form's place."
+CLAIMED["C09"]["text"] += " LR step lemmas: inside angle brackets any of < name , > followed by any of them returns to the same stack with one fold (any nesting depth, any number of members); the last > followed by an option start leaves the stack of a plain-typed column, followed by ',' or ')' it folds the column into the table once."
+CLAIMED["C06"]["text"] += " Relational pipeline lemma: 18 catalogued identifiers (letters, digits, _ $ # @ -, delimited forms containing '#') at 12 name positions give the result of the neutral name, renamed; normalize_names end to end also on delimited names that spell SQL words inside ALTER statements."
+CLAIMED["C10"]["text"] += " End to end: 12 catalogued scripts x 15 modes through the whole pipeline: same entities, same order, common fields equal to the default mode's, no exception - the text handed to the parser does not depend on the mode."
+CLAIMED["C16"]["text"] += " Near-miss mode names (other letter case, surrounding blank, missing / extra letter, None) raise the documented exception; statements following a skipped statement that has no terminating ';' reach the parser exactly as when alone (replayed with silent=False: the script raises iff one of its lines alone does)."
+CLAIMED["C17"]["text"] += " Two CREATE SEQUENCE statements with names differing only in case / quoting / schema (or equal), optionally around a table of the same name: the script yields exactly what each statement yields alone."
+CLAIMED["C13"]["text"] += " Each bucket holds exactly the entities of the statements of its kind (kind taken from the statement, incl. databases / schemas / tables carrying a TABLESPACE clause)."
+CLAIMED["C05"]["text"] += " The cased spelling is dispatched through the real master regex (a keyword rule that is not case-insensitive is seen); four CREATE TABLE statements in 4 layouts each, with ';' or terminated only by the next CREATE line, blank lines, LF / CRLF."
+CLAIMED["C04"]["text"] += " normalize_names=True with delimited names that spell SQL words in ALTER DROP / ADD UNIQUE / RENAME / DEFAULT FOR / ADD / MODIFY: same effect, names without delimiters."
+CLAIMED["C01"]["text"] += " Sizes with the interpreted int() for every 1-2 digit numeral incl. 0; 37 catalogued string literals as a DEFAULT through the whole pipeline."
+CLAIMED["C20"]["text"] += " A grammar that PLY refuses to regenerate (its own validation fails) while a shipped table still loads is reported through the cache states in which the library then fails."
+
 
 def main():
     checks = []
